@@ -5,8 +5,9 @@
           5 slice_from_chunks(_mut) (L = number of chunks) | 6 from_chunks(_mut) (L = chunks)
           7 into_chunks(_mut) (L = chunks) | 8 from_array | 9 into_array
           10 uninit + assume_init (form 2: element L is left unwritten: negative control)
-          11 const_transmute [T; N] -> GenericArray<T, U_L> | 12 arr! (form 0 list, 1 typenum
-          repeat, 2 expression repeat) | 13 const_default | 14 ArrayBuilder::new/is_full
+          11 const_transmute [T; N] -> GenericArray<T, U_L> (form 1: from the byte image of the
+          same values, form 2: to a byte array, bytes observed) | 12 arr! (form 0 list, 1 typenum
+          repeat, 2 expression repeat, 3 / 4 the repeat forms over a non-Copy const item) | 13 const_default | 14 ArrayBuilder::new/is_full
           (/assume_init for N = 0) | 15 IntrusiveArrayBuilder::new/is_full (/finish for N = 0)
           16 ArrayConsumer::new
      ty   0 u8 | 1 u32 | 2 (u8,u16) | 3 ()          form 0 shared, 1 mutable
@@ -30,6 +31,9 @@ Definition vals (ty a n : Z) : list Z := map (val ty) (zseq a n).
 Definition wvals (ty a n : Z) : list Z := map (fun i => val ty (i + 1000)) (zseq a n).
 
 Notation "x <- e ;; k" := (bind e (fun x => k)) (at level 61, e at next level, right associativity).
+
+Fixpoint bytes_le (k : nat) (v : Z) : list Z :=
+  match k with O => [] | S k' => (v mod 256) :: bytes_le k' (v / 256) end.
 
 Section Prog.
   Variable e : Z.     (* size of T *)
@@ -181,11 +185,17 @@ Section Prog.
       g <- assume_init true e true N (block0 m2) ;;
       v <- as_slice true e [g] N P0 ;; rdn [g] (sp v) (slen v)
     | 11 =>
+      (* form 1: the argument is the byte image [u8; N*e] of the same values; form 2: the result is
+         typed GenericArray<u8, U(L*e)> and its bytes are observed.  const_transmute compares sizes
+         only (N*e against L*e) and copies the object representation, so the cells are the same. *)
       g <- const_transmute true e true L (map Init (vals ty 0 N)) ;;
-      s <- as_slice true e [g] L P0 ;; rdn [g] (sp s) (slen s)
+      s <- as_slice true e [g] L P0 ;;
+      x <- rdn [g] (sp s) (slen s) ;;
+      Ret (if form =? 2 then flat_map (bytes_le (znat e)) x else x)
     | 12 =>
+      (* forms 3 / 4: the repeat forms with a const item of a non-Copy type as operand *)
       g <- (if form =? 0 then arr_list true e (vals ty 0 N)
-            else if form =? 1 then arr_repeat_ty true e (val ty 0) N
+            else if (form =? 1) || (form =? 3) then arr_repeat_ty true e (val ty 0) N
             else arr_repeat_expr true e (val ty 0) N) ;;
       s <- as_slice true e [g] N P0 ;; rdn [g] (sp s) (slen s)
     | 13 =>
